@@ -1,12 +1,12 @@
 #!/usr/bin/env python3
 """Run every check against every stored seed (each applied to a scratch worktree of /repo HEAD),
 16 workers.  Writes seeded/MATRIX.json and prints a table.  usage: seed_matrix.py [filter]"""
-import os, sys, json, subprocess, tempfile, shutil, concurrent.futures as cf
+import os, sys, re, json, subprocess, tempfile, shutil, concurrent.futures as cf
 V = '/verif'
 props = sorted(f[:-3] for f in os.listdir(f'{V}/rules') if f.startswith('C') and f.endswith('.py'))
 seeds = sorted(d for d in os.listdir(f'{V}/seeded') if os.path.isdir(f'{V}/seeded/{d}'))
 if len(sys.argv) > 1:
-    seeds = [s for s in seeds if sys.argv[1] in s]
+    seeds = [s for s in seeds if re.search(sys.argv[1], s)]
 
 def one(seed):
     d = tempfile.mkdtemp(prefix='sm.', dir='/tmp')
@@ -30,7 +30,7 @@ res = {}
 with cf.ThreadPoolExecutor(16) as ex:
     for seed, out in ex.map(one, seeds):
         res[seed] = out
-json.dump(res, open(f'{V}/seeded/MATRIX.json', 'w'), indent=1, sort_keys=True)
+json.dump(res, open(os.environ.get('SM_OUT', f'{V}/seeded/MATRIX.json'), 'w'), indent=1, sort_keys=True)
 caught = 0
 for seed in seeds:
     out = res[seed]
